@@ -356,6 +356,9 @@ def mon_c09(s, r):
 def mon_c10(s, r):
     viol = []
     tr = r['trace']
+    if any(l[1] == 95 for l in tr) or len(r.get('final', [])) >= 700:
+        viol.append(('endless-batch', -1, 'a batch kept yielding: more than 700 records out of one Pending iterator'))
+        return viol
     begun, ycount = {}, {}
     watched = set(s.setup)
     delivered = {}     # sig -> list of markers in order of the begin of the delivery
